@@ -445,6 +445,8 @@ def c07_table(prog):
                     continue
                 if (short.split("::")[-1], nm) in EXCLUDE:
                     continue
+                if prog.is_new(f):
+                    continue   # a helper introduced by an edit: covered through the functions that call it (callees are inlined)
                 table.append((f, EXPLICIT.get(nm, False)))
     return table
 
